@@ -3,7 +3,17 @@
 package c16
 
 import (
+	"context"
+	"encoding/json"
+	"os"
+	"path/filepath"
 	"testing"
+
+	"github.com/aws/aws-sdk-go-v2/service/s3"
+	"github.com/aws/aws-sdk-go-v2/service/s3/types"
+	"github.com/versity/versitygw/auth"
+	"github.com/versity/versitygw/backend/meta"
+	"github.com/versity/versitygw/backend/posix"
 
 	"github.com/versity/versitygw/s3api/utils"
 )
@@ -18,5 +28,47 @@ func TestAdjacentPeriodsRefused(t *testing.T) {
 		if !utils.IsValidBucketName(n, false) {
 			t.Errorf("bucket name %q is refused", n)
 		}
+	}
+}
+
+// With sidecar metadata the attributes of a bucket are not stored with the bucket directory: DeleteBucket left them
+// behind, and the next bucket of that name inherited tags and policy of the deleted one.
+func TestDeletedBucketSettingsAreGoneWithSidecarMetadata(t *testing.T) {
+	top := t.TempDir()
+	root, side := filepath.Join(top, "root"), filepath.Join(top, "sidecar")
+	os.MkdirAll(root, 0o755)
+	os.MkdirAll(side, 0o755)
+	sc, err := meta.NewSideCar(side)
+	if err != nil {
+		t.Fatal(err)
+	}
+	be, err := posix.New(root, sc, posix.PosixOpts{SideCarDir: side, NewDirPerm: 0o755})
+	if err != nil {
+		t.Fatal(err)
+	}
+	ctx := context.Background()
+	name := "bkt"
+	create := func(owner string) {
+		acl, _ := json.Marshal(auth.ACL{Owner: owner})
+		if err := be.CreateBucket(ctx, &s3.CreateBucketInput{Bucket: &name, ObjectOwnership: types.ObjectOwnershipBucketOwnerEnforced}, acl); err != nil {
+			t.Fatalf("create bucket: %v", err)
+		}
+	}
+	create("alice")
+	if err := be.PutBucketTagging(ctx, name, map[string]string{"k": "v"}); err != nil {
+		t.Fatal(err)
+	}
+	if err := be.PutBucketPolicy(ctx, name, []byte(`{"Statement":[]}`)); err != nil {
+		t.Fatal(err)
+	}
+	if err := be.DeleteBucket(ctx, name); err != nil {
+		t.Fatalf("delete bucket: %v", err)
+	}
+	create("bob")
+	if tags, err := be.GetBucketTagging(ctx, name); err == nil && len(tags) > 0 {
+		t.Errorf("the new bucket has the tags of the deleted one: %v", tags)
+	}
+	if pol, err := be.GetBucketPolicy(ctx, name); err == nil && len(pol) > 0 {
+		t.Errorf("the new bucket has the policy of the deleted one: %s", pol)
 	}
 }
